@@ -242,7 +242,7 @@ fn judge(seed: &Seed, bytes: &[u8], what: &str, case: &dyn Fn() -> Value, bufs: 
 
 /// quick tier: seeds whose decoders are expensive to set up get the 8 single-bit flips per byte instead of all 255 values
 fn bitflips_only(s: &Seed, thorough: bool) -> bool {
-    !thorough && (s.aes || s.label.contains("bzip2") || s.label.contains("zstd"))
+    !thorough && s.aes
 }
 
 fn replay(case: &Value, st: &mut Stats, seed: u64) {
@@ -264,12 +264,12 @@ pub fn run(args: &Args) -> i32 {
         return crate::props::replay_file(ctx, path, |c, st| replay(c, st, seed));
     }
     let thorough = args.tier.thorough();
-    let all = seeds(seed, !thorough);
-    let bufs: Vec<usize> = if thorough { vec![1, 2, 7, 4096, 0] } else { vec![1, 0] };
+    let all = seeds(seed, false);
+    let bufs: Vec<usize> = vec![1, 2, 7, 4096, 0];
     ctx.rule = "E-PROD over damage to seed archives (two entries of 24 and ~60 bytes each; writer-made stored/deflate/bzip2/zstd and ZipCrypto, builder-made with data descriptors, AE-1, AE-2): \
-        every one of the 255 other byte values at every offset of every entry's data region and of its CRC field (central, and local for the streaming route) — in the quick tier the AES, bzip2 and zstd seeds get the 8 single-bit flips per byte instead; \
+        every one of the 255 other byte values at every offset of every entry's data region and of its CRC field (central, and local for the streaming route) — in the quick tier the AES seeds get the 8 single-bit flips per byte instead; \
         every payload truncation length; payloads of the two entries swapped; each damaged archive is read entry by entry through the seekable and (where supported) the streaming reader with caller \
-        buffers {1, read_to_end} (thorough adds 2, 7, 4096) with and without interposed empty reads. Oracle: a read sequence that ends in a clean EOF returned bytes whose CRC-32 equals the declared one (AE-2 exempt). \
+        buffers {1, 2, 7, 4096, read_to_end} with and without interposed empty reads. Oracle: a read sequence that ends in a clean EOF returned bytes whose CRC-32 equals the declared one (AE-2 exempt). \
         distinct_nontrivial = distinct damaged archives (counted by the enumerator; positions x values never repeat)."
         .into();
     ctx.assume("the harness CRC-32 is correct (self-tested against known vectors at start-up)");
